@@ -570,6 +570,7 @@ fn main() {
     let mut s = Sink { ops: open("kv.ops"), imp: open("kv.impl"), hist: BTreeMap::new(), errs: BTreeMap::new(), tiers: BTreeMap::new(), lines: 0, cases: 0 };
     let recsize = feoxdb::verif::pure::record_struct_size();
     feoxdb::verif::io::disable_ring(true);
+    feoxdb::verif::proto::fast_shutdown(true);
     let mut rng = Rng::new(args.seed);
     if let Some(p) = &args.replay {
         replay(p, &mut s, &args.out, recsize);
